@@ -195,7 +195,7 @@ def run(ctx):
     rnd = random.Random(ctx.seed)
     items = []
     # every truncation offset of small generated multi-member archives covering all methods
-    nbase = 4 if ctx.tier == 'quick' else 40
+    nbase = 8 if ctx.tier == 'quick' else 60
     for bi in range(nbase):
         ms = []
         for j, m in enumerate(rnd.sample(streams.ALL_METHODS, 4)):
@@ -210,7 +210,7 @@ def run(ctx):
     for tag, A in extreme_archives(rnd):
         items.append((tag, A, 1))
     # random and mutated
-    for i in range(40 if ctx.tier == 'quick' else 1500):
+    for i in range(200 if ctx.tier == 'quick' else 4000):
         ms = c15.random_archive(rnd)
         A = bytearray(arc.archive(ms))
         for _ in range(rnd.choice([1, 3, 10])):
